@@ -45,6 +45,11 @@ def plan(tier: str, seed: int) -> list[dict]:
         n = rng.randrange(1, 40 if bs <= 65536 else (8 if bs <= (2 << 20) else 3))
         cases.append({"k": "dyn", "i": i, "bs": bs, "n": n, "placement": rng.choice(["seq", "rev", "shuffle", "shuffle", "runs"]),
                       "bitmaps": rng.choice(["ones", "ones", "random", "zeros"]), "weight": 1 + (bs * n >> 20)})
+    if tier == "quick":
+        # blocks larger than the 2 MiB default, with holes, also in the quick tier
+        for j, bs in enumerate([4 << 20, 8 << 20, 16 << 20, 4 << 20]):
+            cases.append({"k": "dyn", "i": 1000 + j, "bs": bs, "n": rng.randrange(2, 4), "placement": rng.choice(["rev", "shuffle"]),
+                          "bitmaps": "ones", "weight": 8})
     for i in range(24 if tier == "quick" else 2000):
         cases.append({"k": "fixed", "i": i, "legacy": i % 2 == 1})
     for i in range(10 if tier == "quick" else 300):
